@@ -12,6 +12,7 @@ FILLFUNCS = {
     'mod': lambda i: i % 3 - 1,
     'half': lambda i: i / 2,
     'sq': lambda i: i * i + 1,
+    'hmod': lambda i: i // 2 % 100,      # depends on the index itself, not on the index modulo 2**k
 }
 
 
@@ -45,7 +46,12 @@ def create(case, d):
                        'datetime': np.array(['2020-01-01', '2021-01-01'], dtype='datetime64[D]'),
                        'struct': np.zeros(2, dtype=[('a', 'i4'), ('b', 'f4')]),
                        'boollist': [True, False], 'strlist': ['a', 'b'],
-                       'dict': {'a': 1}, 'none': None}[u]
+                       'dict': {'a': 1}, 'none': None,
+                       'longdouble': np.array([1.5, 2.5], dtype=np.longdouble),
+                       'clongdouble': np.array([1.5 + 2j], dtype=np.clongdouble),
+                       'longdoublescalar': np.longdouble(1.5),
+                       'timedelta': np.array([1, 2], dtype='timedelta64[s]'),
+                       'bytes': np.array([b'ab', b'cd'])}[u]
             else:
                 val = build_value(spec)
             try:
